@@ -1739,6 +1739,7 @@ func runCases(r *core.Run, cases []*gcase, configsFor func(i int) []buildConfig)
 	var mu sync.Mutex
 	var records []*stateRecord
 	variants := map[string]int{}
+	features := map[string]int{}
 	totalRuns, totalBuilds := 0, 0
 	// one Node process per batch of cases
 	const perBatch = 8
@@ -1775,6 +1776,9 @@ func runCases(r *core.Run, cases []*gcase, configsFor func(i int) []buildConfig)
 			mu.Lock()
 			records = append(records, oc.records...)
 			variants[c.Variant]++
+			for _, f := range c.Expect.Features {
+				features[f]++
+			}
 			totalRuns += oc.runs
 			totalBuilds += oc.builds
 			r.Case(c.Label, oc.shared >= 1)
@@ -1786,6 +1790,7 @@ func runCases(r *core.Run, cases []*gcase, configsFor func(i int) []buildConfig)
 		}
 	})
 	r.Set("variants", variants)
+	r.Set("features", features)
 	r.Set("load_sequences_run", totalRuns)
 	r.Set("builds", totalBuilds)
 	r.Set("link_states_recorded", len(records))
@@ -1800,7 +1805,7 @@ func runCases(r *core.Run, cases []*gcase, configsFor func(i int) []buildConfig)
 		}
 		validate(r, append([]*stateRecord{}, records[lo:hi]...))
 	})
-	r.Set("rule", "case = one graph of LinkGen.tla (incidence pattern of k entry points over n modules x feature variant x naming; re-export chain; naming of a shared chunk), built with splitting in 1-3 configurations, its link state validated by TLC against Link.tla and its chunks loaded in every subset and order of entry points; non-trivial = the real build produced at least one shared (non-entry) chunk")
+	r.Set("rule", "case = one graph of LinkGen.tla (incidence pattern of k entry points over n modules x feature variant x naming; re-export chain; naming of a shared chunk; wrap-kind pattern: how each entry point reaches a shared ES / CommonJS module; loader kind and CSS mode of an import() target), built with splitting in 1-3 configurations, its link state validated by TLC against Link.tla and its chunks loaded in every subset and order of entry points; non-trivial = the real build produced at least one shared (non-entry) chunk")
 }
 
 func init() { core.Register("C10", Run) }
